@@ -317,11 +317,11 @@ def _v4_glyphs(draw, axis_names, glyph_names):
 
 @st.composite
 def designspace_doc(draw):
-    v5 = draw(st.integers(0, 3)) != 0
+    v5 = draw(st.integers(0, 2)) != 0
     if v5:
         fmt = draw(st.sampled_from([None, None, "5.0", "5.1", "4.1", "4.0"]))
     else:
-        fmt = draw(st.sampled_from(["4.0", "4.1", "4.1", None, "5.0"]))
+        fmt = draw(st.sampled_from(["4.0", "4.1", "4.1", "4.1", None]))
     # a document whose declared format is < 5 and that uses no v5 feature is written
     # in the pre-5 style (locations filled with defaults, instance glyphs kept)
     n_axes = draw(st.integers(1, 3))
@@ -456,7 +456,7 @@ def designspace_doc(draw):
                     inst["userLocation"][n] = draw(ds_num())
                 else:
                     inst["designLocation"][n] = draw(_loc_value(True))
-        if not v5 and draw(st.integers(0, 2)) == 0:
+        if not v5 and draw(st.booleans()):
             inst["glyphs"] = draw(_v4_glyphs(axis_names, glyph_names))
         doc["instances"].append(inst)
     return {"doc": doc, "via": draw(st.sampled_from(["string", "string", "string", "str-unicode", "file"]))}
@@ -818,7 +818,7 @@ def features_text():
 
 def layer_name():
     return st.one_of(
-        st.sampled_from(["foreground", "background", "Background", "BACKGROUND", "public.background", "Layer 1", ".hidden", "con", "a/b", "../up", "é", "x" * 120, "x" * 119 + "y", "glyphs", "A" * 130]),
+        st.sampled_from(["foreground", "background", "Background", "BACKGROUND", "public.background", "Layer 1", ".hidden", "con", "a/b", "../up", "é", "x" * 120, "x" * 119 + "y", "glyphs", "A" * 130, "a:b", "a_b", "b_ackground", "x" * 260, "x" * 259 + "y", "con", "aux.x"]),
         name_text(12),
     )
 
@@ -975,7 +975,7 @@ def _one_name(draw, pool):
     kind = draw(st.sampled_from(["pool", "pool", "case", "reserved", "dot", "long", "long-pair", "illegal", "any", "suffixlike", "resdot"]))
     if kind == "pool" and pool:
         base = draw(st.sampled_from(pool))
-        how = draw(st.sampled_from(["same", "upper", "lower", "swap", "title", "underscore"]))
+        how = draw(st.sampled_from(["same", "upper", "lower", "swap", "title", "underscore", "underscore", "illegal-swap"]))
         if how == "upper":
             return base.upper()
         if how == "lower":
@@ -985,7 +985,11 @@ def _one_name(draw, pool):
         if how == "title":
             return base.title()
         if how == "underscore":
-            return "".join(c + "_" if c != c.lower() else c for c in base)
+            # 'A' and 'a_' both want the file name 'a_' (ignoring case)
+            return "".join(c.lower() + "_" if c != c.lower() else c for c in base)
+        if how == "illegal-swap":
+            swap = {"/": ":", ":": "*", "*": "_", "_": "?", "?": "/", "(": "[", ")": "]"}
+            return "".join(swap.get(c, c) for c in base)
         return base
     if kind == "case":
         return "".join(draw(st.lists(st.sampled_from(_CASEY), min_size=1, max_size=4)))
